@@ -32,6 +32,7 @@ type GenOpts struct {
 	CtxBody    float64 // probability that a body starts by cancelling / sampling one of the contexts
 	Sleep      int  // async handler bodies may sleep up to this many microseconds (keeps work in flight)
 	ChainPub   bool // registrations of the first type may publish events of the other types from their body
+	PFail      float64 // probability that the append of a top-level publish is scripted to fail (bus with a store)
 }
 
 var vals = []string{"a", "b", "c"}
@@ -150,7 +151,11 @@ func (g GenOpts) Random(rnd *rand.Rand) Script {
 				if len(g.Ctxs) > 0 && rnd.IntN(3) == 0 {
 					ctx = pick(rnd, g.Ctxs)
 				}
-				ops = append(ops, Op{Op: "pub", T: pick(rnd, types), Val: pick(rnd, vals), Ctx: ctx})
+				o := Op{Op: "pub", T: pick(rnd, types), Val: pick(rnd, vals), Ctx: ctx}
+				if s.Cfg.Store && rnd.Float64() < g.PFail {
+					o.PFail = pick(rnd, []string{"rej", "rej", "hang"})
+				}
+				ops = append(ops, o)
 			case "cancel", "ctxerr", "shutdown":
 				if len(g.Ctxs) > 0 {
 					ops = append(ops, Op{Op: k, Ctx: pick(rnd, g.Ctxs)})
